@@ -135,7 +135,7 @@ type Fault struct {
 	Actor string `json:"actor"` // endpoint actor; "new:<actor>" is not used: op "new" names the endpoint being created
 	Op    string `json:"op"`    // new|filter|deadline|read|write|closeSource|closeSink
 	K     int    `json:"k"`
-	Class string `json:"class"` // fatal|deadline|zero|stall (the operation takes effect Us later)|stallret (write only: the packet leaves at once, WriteTo returns Us later)
+	Class string `json:"class"` // fatal|slowfatal (write: blocks for Us, then fails)|deadline|zero|stall (the operation takes effect Us later)|stallret (write only: the packet leaves at once, WriteTo returns Us later)
 	Us    int64  `json:"us,omitempty"`
 }
 
